@@ -54,3 +54,118 @@ def crosscheck(run, triples, tag="vm", shard=120):
             raise vlib.MachineryError("Coq's own evaluation of the model disagrees with the extracted model / oracle on %s:\n%s" % (path, out[-1500:]))
     run.coverage["vm_compute_crosscheck"] = "%d cases re-evaluated inside Coq, all agree" % len(triples)
     return len(triples)
+
+
+# ------------------------------------------------------------------ client histories
+
+def _nl(bs):
+    return "[%s]" % "; ".join(str(x) for x in bs)
+
+
+def _cps(text_bytes):
+    """code points of a UTF-8 byte string (as the driver / the harness read tokens and serials)"""
+    try:
+        return [ord(ch) for ch in bytes(text_bytes).decode("utf-8")]
+    except UnicodeDecodeError:
+        return list(text_bytes)
+
+
+def client_term(case_line, out_line):
+    """(Coq term of one client case with the driver's own answer as the expectation) or None"""
+    from . import client_cases as cc
+    f = case_line.split("\t")
+    if f[0] != "client":
+        return None
+    p = cc.parse_output(out_line)
+    if p is None:
+        return None
+    res, ev, T = p
+    cfg = dict(kv.split("=") for kv in f[1].split(";"))
+    cfg_t = ("{| c_serial := %s; c_terminal_id := %s; c_currency := %d; c_amount := %d; c_read_card_timeout := %d; "
+             "c_password := %d; c_max := %d |}" % (_nl(_cps(bytes.fromhex(cfg["serial"]))), _nl(_cps(cfg["tid"].encode())),
+                                                   int(cfg["cur"]), int(cfg["amount"]), int(cfg["rct"]), int(cfg["pw"]), int(cfg["max"])))
+    ops = []
+    if f[2] != "-":
+        for o in f[2].split(";"):
+            q = o.split(":")
+            if q[0] == "configure":
+                ops.append("OConfigure")
+            elif q[0] == "read_card":
+                ops.append("OReadCard")
+            elif q[0] == "begin":
+                ops.append("OBegin %s" % _nl(_cps(bytes.fromhex(q[1]))))
+            elif q[0] == "cancel":
+                ops.append("OCancel %s" % _nl(_cps(bytes.fromhex(q[1]))))
+            elif q[0] == "commit":
+                ops.append("OCommit %s %d" % (_nl(_cps(bytes.fromhex(q[1]))), int(q[2])))
+            else:
+                return None
+    scripts = []
+    if f[3] != "-":
+        for c in f[3].split("|"):
+            if c == "refused":
+                scripts.append("{| cs_refused := true; cs_chunks := []; cs_close := false |}")
+                continue
+            close, chunks = False, []
+            for item in c.split(","):
+                if item in ("S", ""):
+                    close = False
+                elif item == "C":
+                    close = True
+                else:
+                    d, h = item.split(":", 1)
+                    bs = b"" if h in ("-", "") else bytes.fromhex(h)
+                    chunks.append("(%s, %s)" % ("None" if d == "N" else "Some %d" % int(d), _nl(bs)))
+            scripts.append("{| cs_refused := false; cs_chunks := [%s]; cs_close := %s |}" % ("; ".join(chunks), "true" if close else "false"))
+    evs = []
+    for k, cid, t, hx in ev:
+        if k == "O":
+            evs.append("EOpen %d %d" % (cid, t))
+        elif k == "D":
+            evs.append("EDrop %d %d" % (cid, t))
+        elif k == "X":
+            evs.append("ERefused %d" % t)
+        elif k == "W":
+            evs.append("EWrite %d %d %s" % (cid, t, _nl(b"" if hx in ("-", "") else bytes.fromhex(hx))))
+    times = ["(%d, %d)" % (t0, dt) for (_, t0, dt) in res[1:]]
+    return "(%s, [%s], [%s], [%s], %d, [%s])" % (cfg_t, "; ".join(ops), "; ".join(scripts), "; ".join(evs), T, "; ".join(times))
+
+
+def client_crosscheck(run, cases, model_outs, limit=60, shard=12):
+    import random
+    rng = random.Random(len(cases))
+    idx = list(range(len(cases)))
+    rng.shuffle(idx)
+    terms = []
+    for k in idx:
+        if len(cases[k]) > 6000:
+            continue
+        t = client_term(cases[k], model_outs[k])
+        if t is not None:
+            terms.append(t)
+        if len(terms) >= limit:
+            break
+    wd = os.path.join(vlib.CACHE, "vm", run.prop)
+    os.makedirs(wd, exist_ok=True)
+    files = []
+    for k in range(0, len(terms), shard):
+        path = os.path.join(wd, "client_%d.v" % (k // shard))
+        with open(path, "w") as f:
+            f.write("From Zvt Require Import Base Encoding Client VmCheck.\nFrom Coq Require Import String ZArith.\nOpen Scope N_scope.\n"
+                    "Definition cs : list (config * list op * list cscript * list event * N * list (N * N)) := [\n")
+            f.write(";\n".join(terms[k:k + shard]))
+            f.write("].\nEval vm_compute in vm_client_failures cs.\n")
+        files.append(path)
+
+    def one(path):
+        rc, out = vlib.sh("ulimit -s unlimited; coqc -q -noglob -Q %s Zvt %s" % (vlib.COQ, path), cwd=wd, timeout=1800)
+        return path, rc, out
+    from concurrent.futures import ThreadPoolExecutor
+    with ThreadPoolExecutor(max_workers=vlib.NPROC) as ex:
+        res = list(ex.map(one, files))
+    for path, rc, out in res:
+        flat = " ".join(out.split())
+        if rc != 0 or "= []" not in flat:
+            raise vlib.MachineryError("Coq's own evaluation of run_history disagrees with the extracted model on %s:\n%s" % (path, out[-1500:]))
+    run.coverage["vm_compute_crosscheck_client"] = "%d histories re-evaluated inside Coq (event log, final time, per-call times): all agree" % len(terms)
+    return len(terms)
